@@ -215,6 +215,35 @@ def main():
             run.violation(dict(kind='aggregate-access', program=open(f).read(), first_differing_output_line=d, chibicc=(l1[d] if d < len(l1) else w1)[:300], gcc=(l2[d] if d < len(l2) else '')[:300],
                                how='compile and run with both compilers; lines are read-backs and byte dumps after writing every leaf through seven lvalue spellings'), dict(area='aggregate', construct='paths'))
 
+    # ---------------- (b2) whole-object copies over a sweep of sizes ----------------
+    # every size 1..272 and sizes around larger powers of two, as char and as int arrays: plain =, through pointers, chained, from a call,
+    # from a compound literal, from ?: - the destination must equal the source and the 16 guard bytes on each side must be untouched
+    sizes = list(range(1, 273)) + [511, 512, 513, 1023, 1025, 4095, 4097, 65537]
+    if run.quick(): sizes = [n for n in sizes if n <= 40 or n % 8 in (0, 1, 4, 7) or n > 272]
+    L = ['int printf(const char *, ...); void *memset(void *, int, unsigned long); int memcmp(const void *, const void *, unsigned long);',
+         'static int guard(char *g) { for (int i = 0; i < 16; i++) if (g[i] != 0x5a) return 0; return 1; }']
+    for n in sizes:
+        et, cnt = ('int', n // 4) if n % 4 == 0 and n % 8 == 4 else ('char', n)
+        L.append('struct S%d { %s b[%d]; };' % (n, et, cnt))
+        L.append('static struct S%d mk%d(int s) { struct S%d r; for (int i = 0; i < %d; i++) ((char *)&r)[i] = (char)(s + i * 7); return r; }' % (n, n, n, n))
+        L.append('static struct { char g0[16]; struct S%d d; char g1[16]; struct S%d s; char g2[16]; struct S%d e; char g3[16]; } x%d;' % (n, n, n, n))
+        L.append('static void chk%d(int v) { if (memcmp(&x%d.d, &x%d.s, %d) || !guard(x%d.g0) || !guard(x%d.g1) || !guard(x%d.g2) || !guard(x%d.g3)) printf("%d:%%d ", v); memset(&x%d.d, 0, %d); }' % (n, n, n, n, n, n, n, n, n, n, n))
+        L.append(('static void t{n}(int k) { memset(&x{n}, 0x5a, sizeof x{n}); x{n}.s = mk{n}(3); x{n}.d = x{n}.s; chk{n}(1); struct S{n} *p = &x{n}.d, *q = &x{n}.s; *p = *q; chk{n}(2);'
+                 ' x{n}.d = x{n}.e = x{n}.s; chk{n}(3); x{n}.d = mk{n}(3); chk{n}(4); x{n}.d = k ? x{n}.s : x{n}.e; chk{n}(5); x{n}.d = (struct S{n}){0}; x{n}.d = *&x{n}.s; chk{n}(6);'
+                 ' struct S{n} l = x{n}.s; x{n}.d = l; chk{n}(7); }').replace('{n}', str(n)))
+    L.append('int main(int argc, char **argv) {')
+    for n in sizes: L.append('  t%d(argc);' % n)
+    L.append('  printf("done\\n"); return 0; }')
+    f = os.path.join(wd, 'copysweep.c'); open(f, 'w').write('\n'.join(L) + '\n')
+    o1, w1 = build_run(f, 'chibicc'); o2, w2 = build_run(f, 'gcc')
+    evals += len(sizes); count('copy-size', len(sizes))
+    if o2 != 'done\n': run.corr_broken.append('copy sweep program is wrong under gcc: %s %s' % (o2, w2))
+    elif o1 != 'done\n':
+        run.violation(dict(kind='aggregate-copy', failing='size:variant list: ' + (o1 if o1 is not None else w1)[:300], program_head='\n'.join(L[:8]),
+                           how='struct Sn { char|int b[..]; } of n bytes copied by =, *p = *q, chained =, from a call, ?:, compound literal, local: destination equals source, 16 guard bytes on each side untouched; variants 1-7'),
+                      dict(area='aggregate', construct='copy-size'))
+    else: nontriv += len(sizes)
+
     # ---------------- (c) element addresses ----------------
     ITY = [('signed char', 8, True), ('unsigned char', 8, False), ('short', 16, True), ('unsigned short', 16, False), ('int', 32, True), ('unsigned', 32, False), ('long', 64, True), ('unsigned long', 64, False)]
     ETY = [('char', 1), ('short', 2), ('int', 4), ('long', 8), ('struct E12', 12), ('struct E70000', 70000), ('int[1024]', 4096), ('long double', 16)]
